@@ -37,12 +37,45 @@ def meta_cmp_key(meta):
     return (meta.isdir, meta.isexec)
 
 
+class _ChecksumFS:
+    """just enough of a filesystem for push's _meta_checksum(): the name of the metadata field holding its checksum"""
+
+    def __init__(self, field):
+        self.PARAM_CHECKSUM = field
+
+
+def _field_key(field):
+    def key(meta):
+        return None if meta is None else getattr(meta, field)
+
+    return key
+
+
+# comparison keys that project a real Meta to None when it lacks the field looked at: "checksum:<field>" is what
+# index/push.py hands to compare() for a file-storage remote whose fs.PARAM_CHECKSUM is <field>; "field:<field>" is the
+# plain user key `lambda meta: meta.<field>` (None -> None, as diff's callers write it)
+PROJECTIONS = ["checksum:etag", "checksum:checksum", "checksum:md5", "field:size", "field:version_id"]
+
+
+def cmp_key_of(name):
+    if name == "dirExec":
+        return meta_cmp_key
+    kind, field = name.split(":")
+    if kind == "checksum":
+        from functools import partial
+
+        from dvc_data.index.push import _meta_checksum
+
+        return partial(_meta_checksum, _ChecksumFS(field))
+    return _field_key(field)
+
+
 def run_diff(old, new, opts):
     from dvc_data.index.diff import diff
 
     kw = {k: v for k, v in opts.items() if k != "cmp"}
-    if opts.get("cmp") == "dirExec":
-        kw["meta_cmp_key"] = meta_cmp_key
+    if opts.get("cmp"):
+        kw["meta_cmp_key"] = cmp_key_of(opts["cmp"])
 
     def f():
         return [(c.typ, list(c.old.key) if c.old else None, list(c.new.key) if c.new else None)
@@ -72,8 +105,6 @@ def rand_side(rng, files, explicit_dirs=0.5, salt=0):
     from dvc_data.hashfile.hash_info import HashInfo
     from dvc_data.hashfile.meta import Meta
 
-    specs = []
-    dirs = sorted({k[:i] for k in files for i in range(1, len(k))})
     fspecs = []
     for k, c in files.items():
         r = rng.random()
@@ -81,6 +112,15 @@ def rand_side(rng, files, explicit_dirs=0.5, salt=0):
         r = rng.random()
         meta = None if r < 0.25 else Meta(size=len(c), isexec=rng.random() < 0.2) if r < 0.8 else Meta(size=len(c), inode=rng.randrange(5), mtime=float(rng.randrange(3)))
         fspecs.append((k, meta, hi))
+    return finish_side(rng, files, fspecs, explicit_dirs, salt)
+
+
+def finish_side(rng, files, fspecs, explicit_dirs, salt):
+    from dvc_data.hashfile.hash_info import HashInfo
+    from dvc_data.hashfile.meta import Meta
+
+    specs = []
+    dirs = sorted({k[:i] for k in files for i in range(1, len(k))})
     for d in dirs:
         # the same directory is represented the same way on both sides (explicit/implicit, hashed or not),
         # and a directory hash is a function of the hashes recorded below it (consistent indexes)
@@ -94,7 +134,8 @@ def rand_side(rng, files, explicit_dirs=0.5, salt=0):
     return specs
 
 
-def rand_pair(rng):
+def rand_pair(rng, side=None):
+    side = side or rand_side
     files = gen.rand_tree(rng, max_files=7, allow_odd=False)
     old_files = dict(files)
     new_files = dict(files)
@@ -125,8 +166,8 @@ def rand_pair(rng):
         new_files[k] = rng.choice(list(files.values()) + [b"brand-new"])
     exp = rng.choice([0.0, 0.5, 1.0])
     salt = rng.randrange(10**6)
-    old = rand_side(rng, old_files, exp, salt)
-    new = rand_side(rng, new_files, exp, salt)
+    old = side(rng, old_files, exp, salt)
+    new = side(rng, new_files, exp, salt)
     if new and rng.random() < 0.3:
         # the same hash *values* recorded under another algorithm name on the new side (an md5-dos2unix -> md5 migration,
         # etags): a whole top-level sub-tree (or the whole index) switches, directory hashes included, so the index stays
@@ -265,6 +306,20 @@ def oracle_pair(ctx, case, old, new, opts, impl):
         ctx.oracle(not left, case, {"why": "a matching added/deleted pair was left unpaired", "hashes": [str(h) for h in left]})
 
 
+def self_and_swap(ctx, case, old, new, opts, impl):
+    """self-diff shows no change; swapping swaps add/delete and nothing else"""
+    if old is not None and not opts.get("with_renames"):
+        o2 = {k: v for k, v in opts.items() if k != "with_unchanged"}
+        s = run_diff(old, old, o2)
+        ctx.oracle(s == [], case, {"why": "an index diffed with itself shows a change", "impl": s})
+    if old is not None and new is not None and not opts.get("with_renames"):
+        sw = run_diff(new, old, opts)
+        if not isinstance(sw, dict) and not isinstance(impl, dict):
+            m = {"add": "delete", "delete": "add"}
+            exp = canon_impl([[m.get(t, t), nk, ok] for t, ok, nk in impl])
+            ctx.oracle(sw == exp, case, {"why": "swapping the arguments does not just swap added and deleted", "swapped": sw, "expected": exp})
+
+
 def check_pairs(ctx, pairs):
     reqs = []
     for old, new, opts in pairs:
@@ -284,17 +339,7 @@ def check_pairs(ctx, pairs):
         if not isinstance(impl, dict):
             for t, _, _ in impl:
                 ctx.count("typ:" + t)
-        # self-diff shows no change; swapping swaps add/delete and nothing else
-        if old is not None and not opts.get("with_renames"):
-            o2 = {k: v for k, v in opts.items() if k != "with_unchanged"}
-            s = run_diff(old, old, o2)
-            ctx.oracle(s == [], case, {"why": "an index diffed with itself shows a change", "impl": s})
-        if old is not None and new is not None and not opts.get("with_renames"):
-            sw = run_diff(new, old, opts)
-            if not isinstance(sw, dict) and not isinstance(impl, dict):
-                m = {"add": "delete", "delete": "add"}
-                exp = canon_impl([[m.get(t, t), nk, ok] for t, ok, nk in impl])
-                ctx.oracle(sw == exp, case, {"why": "swapping the arguments does not just swap added and deleted", "swapped": sw, "expected": exp})
+        self_and_swap(ctx, case, old, new, opts, impl)
         if len(ctx.samples) < 2 and old and new:
             ctx.sample({"opts": opts, "old_keys": [e["key"] for e in req["old"]], "new_keys": [e["key"] for e in req["new"]], "changes": impl})
 
@@ -319,8 +364,8 @@ def check_views(ctx, pairs):
             return (accept_root if not k else k[0] in allowed)
 
         kw = {k: v for k, v in opts.items() if k != "cmp"}
-        if opts.get("cmp") == "dirExec":
-            kw["meta_cmp_key"] = meta_cmp_key
+        if opts.get("cmp"):
+            kw["meta_cmp_key"] = cmp_key_of(opts["cmp"])
         case = {"view_diff": True, "old": [ent_json(x) for x in old], "new": [ent_json(x) for x in new], "opts": opts,
                 "allowed": sorted(allowed), "accept_root": accept_root}
         ctx.case(case)
@@ -365,10 +410,11 @@ def table(ctx):
     metas = [None, Meta(size=1), Meta(size=2), Meta(size=1, isexec=True), Meta(isdir=True)]
     his = [None, HashInfo("md5", ""), HashInfo("md5", "h1"), HashInfo("md5", "h2"), HashInfo("md5", "h1.dir"), HashInfo("etag", "h1")]
     sides = [None] + [(m, h) for m in metas for h in his]
-    rows, impl = [], []
+    rows, impl, refs = [], [], []
     for o, n in itertools.product(sides, sides):
         for hash_only, meta_only, cmp in itertools.product([False, True], [False, True], [None, "dirExec"]):
             opts = {"hash_only": hash_only, "meta_only": meta_only, "cmp": cmp}
+            refs.append(ref_typ(o, n, hash_only, meta_only, meta_cmp_key if cmp else None))
             oe = mk_entry(("k",), *o) if o is not None else None
             ne = mk_entry(("k",), *n) if n is not None else None
             k, v = safe_call(lambda: _diff_entry(oe, ne, hash_only=hash_only, meta_only=meta_only, meta_cmp_key=meta_cmp_key if cmp else None))
@@ -383,6 +429,9 @@ def table(ctx):
         ctx.corr("IndexDiff.diffEntry~_diff_entry (table)", rows[i], impl[i], ans[i])
     else:
         ctx.traces += len(rows)
+    # the harness's own key-by-key reference (used where the comparison key is not one the model knows) is the model's table
+    bad = [i for i, (a, b) in enumerate(zip(refs, ans)) if a != b]
+    ctx.corr("IndexDiff.diffEntry~harness reference ref_typ (table)", rows[bad[0]] if bad else {}, refs[bad[0]] if bad else None, ans[bad[0]] if bad else None)
     # swap symmetry of the table on the implementation
     idx = {}
     for r, t in zip(rows, impl):
@@ -393,6 +442,167 @@ def table(ctx):
         ctx.oracle(t2 == m.get(t, t), r, {"why": "_diff_entry is not symmetric under swapping", "forward": t, "backward": t2})
         if str(r["old"]) == str(r["new"]):
             ctx.oracle(t == "unchanged", r, {"why": "_diff_entry(e, e) is not unchanged", "got": t})
+
+
+# ------------------------------------------------------------------ comparison keys that project a real Meta to None
+
+
+def ref_typ(o, n, hash_only, meta_only, key):
+    """the key-by-key reference: IndexDiff.diffEntry with the metadata comparison generalised to any key function
+    (table() ties it to the model for the two keys the model knows).  o, n = None (no entry) or (meta, hash_info).
+    Whether metadata are there is decided on the metadata themselves; the key function only says whether two metadata
+    that are both there count as equal."""
+    om, oh = o if o is not None else (None, None)
+    nm, nh = n if n is not None else (None, None)
+    oh, nh = truthy(oh), truthy(nh)
+    if om is None and nm is None:
+        md = "unchanged"
+    elif om is None:
+        md = "add"
+    elif nm is None:
+        md = "delete"
+    elif key is None:
+        md = "unchanged" if om == nm else "modify"
+    else:
+        md = "unchanged" if key(om) == key(nm) else "modify"
+    if oh is None and nh is None:
+        hd = "unchanged"
+    elif oh is None:
+        hd = "add"
+    elif nh is None:
+        hd = "delete"
+    else:
+        hd = "unchanged" if oh == nh else "modify"
+    ed = "add" if (o is None and n is not None) else "delete" if (o is not None and n is None) else "unchanged"
+    if meta_only:
+        return md
+    if hash_only:
+        return hd
+    if ed != "unchanged":
+        return ed
+    if md == "unchanged" and om is None:
+        return hd
+    if hd == "unchanged" and oh is None:
+        return md
+    if md == hd == ed:
+        return md
+    return "modify"
+
+
+def rand_side_remote(rng, files, explicit_dirs=0.5, salt=0):
+    """a side as an index of a cloud remote / an imported workspace looks: file metadata carry some of etag, checksum,
+    md5, version_id (the same content gives the same tag on both sides, now and then a stale one) and some entries lack
+    the field - or the size, or the hash - altogether"""
+    from dvc_data.hashfile.hash_info import HashInfo
+    from dvc_data.hashfile.meta import Meta
+
+    fspecs = []
+    for k, c in files.items():
+        hi = None if rng.random() < 0.35 else HashInfo("md5", md5hex(c))
+        if rng.random() < 0.12:
+            meta = None
+        else:
+            tag = md5hex(c)[:8] + ("-stale" if rng.random() < 0.12 else "")
+            kw = {f: tag for f in ("etag", "checksum", "md5") if rng.random() < 0.6}
+            if rng.random() < 0.4:
+                kw["version_id"] = "v" + tag
+            meta = Meta(size=len(c) if rng.random() < 0.7 else None, isexec=rng.random() < 0.15, **kw)
+        fspecs.append((k, meta, hi))
+    return finish_side(rng, files, fspecs, explicit_dirs, salt)
+
+
+def proj_table(ctx):
+    """exhaustive: _diff_entry under every projecting comparison key over presence x meta (with / without the field
+    the key looks at) x hash x mode, against the key-by-key reference; swap symmetry and reflexivity"""
+    from dvc_data.hashfile.hash_info import HashInfo
+    from dvc_data.hashfile.meta import Meta
+    from dvc_data.index.diff import _diff_entry
+
+    def tagged(t, **kw):
+        return Meta(etag=t, checksum=t, md5=t, version_id="v" + t, **kw)
+
+    metas = [None, Meta(), Meta(size=1), tagged("e1", size=1), tagged("e2", size=1), tagged("e1"), Meta(size=2, etag="e1"), Meta(isdir=True)]
+    his = [None, HashInfo("md5", ""), HashInfo("md5", "h1"), HashInfo("md5", "h2")]
+    sides = [None] + [(m, h) for m in metas for h in his]
+    n = 0
+    swap = {"add": "delete", "delete": "add"}
+    for proj in PROJECTIONS:
+        key = cmp_key_of(proj)
+        got = {}
+        for (i, o), (j, nn) in itertools.product(enumerate(sides), enumerate(sides)):
+            oe = mk_entry(("k",), *o) if o is not None else None
+            ne = mk_entry(("k",), *nn) if nn is not None else None
+            for hash_only, meta_only in ((False, False), (True, False), (False, True)):
+                _, t = safe_call(lambda: _diff_entry(oe, ne, hash_only=hash_only, meta_only=meta_only, meta_cmp_key=key))
+                got[(i, j, hash_only, meta_only)] = t
+                n += 1
+        for (i, j, hash_only, meta_only), t in got.items():
+            o, nn = sides[i], sides[j]
+            case = {"projected_cmp_key": proj, "old": None if o is None else ent_json((("k",),) + o),
+                    "new": None if nn is None else ent_json((("k",),) + nn), "opts": {"hash_only": hash_only, "meta_only": meta_only}}
+            want = ref_typ(o, nn, hash_only, meta_only, key)
+            ctx.oracle(t == want, case, {"why": "_diff_entry under a comparison key that maps a real Meta to None differs from the key-by-key comparison",
+                                         "got": t, "expected": want})
+            back = got[(j, i, hash_only, meta_only)]
+            ctx.oracle(back == swap.get(t, t), case, {"why": "_diff_entry is not symmetric under swapping", "forward": t, "backward": back})
+            if i == j:
+                ctx.oracle(t == "unchanged", case, {"why": "_diff_entry(e, e) is not unchanged", "got": t})
+    ctx.evaluations += n
+    ctx.count("projecting cmp key: _diff_entry table rows", n)
+    ctx.exhaustive["_diff_entry under %d projecting comparison keys over %d (old, new, mode) rows" % (len(PROJECTIONS), n)] = True
+
+
+def check_projected(ctx, n):
+    """diff() of two indexes under a comparison key that is None for a Meta lacking the field it looks at (push's
+    _meta_checksum, `lambda m: m.size`): every key with an entry once, classified as the key-by-key reference says -
+    a key present on both sides is never split into / reported as add or delete because a projection is None, a new
+    entry is never hidden; self-diff and swap.  Oracle only (the model knows the full and the (isdir, isexec) key)."""
+    rng = ctx.rng
+    for _ in range(n):
+        old, new = rand_pair(rng, side=rand_side_remote)
+        proj = rng.choice(PROJECTIONS)
+        opts = {"with_unchanged": rng.random() < 0.5, "cmp": proj}
+        r = rng.random()
+        if r < 0.55:
+            opts["meta_only"] = True
+        elif r < 0.7:
+            opts["hash_only"] = True
+        case = {"projected_cmp_key": proj, "old": None if old is None else [ent_json(s) for s in old],
+                "new": None if new is None else [ent_json(s) for s in new], "opts": opts}
+        ctx.case(case, nontrivial=bool(old) and bool(new))
+        ctx.count("projecting cmp key: " + proj)
+        ctx.count("projecting cmp key: mode=" + ("meta_only" if opts.get("meta_only") else "hash_only" if opts.get("hash_only") else "hash+meta"))
+        impl = run_diff(old, new, opts)
+        if isinstance(impl, dict):
+            ctx.oracle(False, case, {"why": "diff raised", "impl": impl})
+            continue
+        key = cmp_key_of(proj)
+        fo, fn = flat(old), flat(new)
+        want, one_sided = {}, 0
+        for k in set(fo) | set(fn):
+            o, nn = fo.get(k), fn.get(k)
+            o = None if o is None else (fixed_meta(*o), o[1])
+            nn = None if nn is None else (fixed_meta(*nn), nn[1])
+            t = ref_typ(o, nn, opts.get("hash_only"), opts.get("meta_only"), key)
+            if o and nn and o[0] is not None and nn[0] is not None and (key(o[0]) is None) != (key(nn[0]) is None):
+                one_sided += 1
+            if t != "unchanged" or opts["with_unchanged"]:
+                want[k] = t
+        if one_sided:
+            ctx.count("projecting cmp key: pairs with a key whose projection is None on one side only")
+        got, dup = {}, []
+        for t, ok, nk in impl:
+            ctx.oracle((ok is None or tuple(ok) in fo) and (nk is None or tuple(nk) in fn) and (ok is None or nk is None or ok == nk), case,
+                       {"why": "change refers to a key without an entry", "change": [t, ok, nk]})
+            k = tuple(ok if ok is not None else nk)
+            if k in got:
+                dup.append(list(k))
+            got[k] = t
+        ctx.oracle(not dup, case, {"why": "a key is reported more than once", "keys": dup})
+        wrong = sorted(k for k in set(got) | set(want) if got.get(k) != want.get(k))
+        ctx.oracle(not wrong, case, {"why": "diff under a comparison key that maps a real Meta to None differs from the key-by-key comparison",
+                                      "differences": [{"key": list(k), "impl": got.get(k), "expected": want.get(k)} for k in wrong[:6]]})
+        self_and_swap(ctx, case, old, new, opts, impl)
 
 
 # ------------------------------------------------------------------ index/save.py and the unchanged-sub-tree shortcut
@@ -546,7 +756,7 @@ def run(ctx):
         "exhaustive _diff_entry table (26 entry shapes per side x 8 option combinations); pairs of well-formed indexes derived from "
         "one another (modify/delete/add, file<->directory kind changes at any depth, implicit or explicit directory entries with "
         "consistent hashes, missing hash/meta, one side None or empty) x random option combinations; rename workloads with duplicate "
-        "hashes; the same pairs behind filtered views (filter on the first key part, accepting or rejecting the root key) against the diff of the restricted indexes; index.save() on generated indexes against IndexSave.saveDirs (entries, stored listing bytes) and the hash-only diff of two saved indexes against the flat comparison of their file hashes. non-trivial = both sides non-empty; distinct = sha256 of the case"
+        "hashes; the same pairs behind filtered views (filter on the first key part, accepting or rejecting the root key) against the diff of the restricted indexes; index.save() on generated indexes against IndexSave.saveDirs (entries, stored listing bytes) and the hash-only diff of two saved indexes against the flat comparison of their file hashes; comparison keys that map a real Meta to None when it lacks a field (push's _meta_checksum for etag/checksum/md5, `lambda m: m.size` / `.version_id`): exhaustive _diff_entry table and derived index pairs whose file metadata carry, lack or disagree on those fields (hashed and unhashed entries; meta-only, hash-only, hash+meta), against the key-by-key reference, with self-diff and swap. non-trivial = both sides non-empty; distinct = sha256 of the case"
     )
     ctx.assumptions = ["indexes are well-formed: every proper prefix of an entry key is absent or a directory entry",
                        "directory hashes are consistent with their children (for the unchanged-subtree shortcut)"]
@@ -557,6 +767,8 @@ def run(ctx):
     check_pairs(ctx, pairs)
     check_views(ctx, pairs[: ctx.n(250, 3000)])
     check_save(ctx, ctx.n(60, 800))
+    proj_table(ctx)
+    check_projected(ctx, ctx.n(300, 4000))
 
 
 def search(ctx):
